@@ -9,10 +9,11 @@ import (
 // execWfault executes a one-operation spec: control (no fault) on a fresh instance for the
 // reference output, then the faulted operation on another fresh instance.
 func execWfault(spec *RunSpec, st *Stats) *Violation {
-	if len(spec.Clients) != 1 || len(spec.Clients[0]) != 1 {
-		panic("wfault spec must have exactly one operation")
+	if len(spec.Clients) != 1 || len(spec.Clients[0]) < 1 {
+		panic("wfault spec must have one client with at least one operation")
 	}
-	op := spec.Clients[0][0]
+	ops := spec.Clients[0]
+	op := ops[len(ops)-1]
 	R, ok := wfaultRef(spec.Cfg, spec.Docs, op)
 	if !ok {
 		if st != nil {
@@ -20,7 +21,22 @@ func execWfault(spec *RunSpec, st *Stats) *Violation {
 		}
 		return nil
 	}
-	return wfaultOne(spec.Cfg, spec.Docs, op, R, st)
+	// prelude: the operations this process executed just before the checked one (each alone
+	// on its own fresh instance, results ignored). They matter only if the code under test
+	// keeps state across calls at package level (a pooled buffer, say); the minimiser drops
+	// them when the violation does not need them.
+	for _, pre := range ops[:len(ops)-1] {
+		cfg := spec.Cfg
+		if pre.Kind == "PkgConvert" {
+			cfg = Config{}
+		}
+		_ = runSolo(cfg, spec.Docs, pre)
+	}
+	v := wfaultOne(spec.Cfg, spec.Docs, op, R, st)
+	if v != nil {
+		v.Op = len(ops) - 1
+	}
+	return v
 }
 
 // wfaultRef: fault-free output for this operation's API path, through a plain buffer.
@@ -89,6 +105,7 @@ type wfaultParams struct {
 	replayDir  string
 	maxVio     int
 	noMinimise bool
+	ctl        *replayCtl
 }
 
 // wfaultGroup enumerates every fault position for one (cfg, doc, path, stack).
@@ -108,9 +125,16 @@ func wfaultGroup(p *wfaultParams, st *Stats, run int, cfg Config, doc []byte, ki
 			RunSeed: fmt.Sprintf("%#x", runSeed(p.verifSeed, "wfault", run)), Cfg: cfg, Docs: docs, Clients: [][]Op{{op}}}
 	}
 	groupHash := hashBytes(hashStr(cfg.Key()+"|"+kind+"|"+stack), doc)
+	var recent []Op // the last operations executed in this group, oldest first
 	try := func(f *FaultPlan) bool {
 		op := base
 		op.Fault = f
+		defer func() {
+			recent = append(recent, op)
+			if len(recent) > 3 {
+				recent = recent[1:]
+			}
+		}()
 		before := st.Counters["fired.short+err"] + st.Counters["fired.zero+err"] + st.Counters["fired.full+err"] +
 			st.Counters["fired.always"] + st.Counters["fired.transient"] + st.Counters["fired.short+nil"]
 		v := wfaultOne(cfg, docs, op, R, st)
@@ -119,9 +143,16 @@ func wfaultGroup(p *wfaultParams, st *Stats, run int, cfg Config, doc []byte, ki
 		if after > before && f != nil {
 			st.Distinct(hashU64(hashU64(hashStr(f.Kind+f.Shape)^groupHash, uint64(f.K)), uint64(f.J)))
 		}
+		if v != nil && p.ctl != nil {
+			p.ctl.capture(mkSpec(op), v)
+			return false
+		}
 		if v != nil {
 			if len(st.Violations) < p.maxVio {
-				reportViolation(mkSpec(op), v, st, p.replayDir, !p.noMinimise)
+				sp := mkSpec(op)
+				sp.Clients = [][]Op{append(append([]Op{}, recent...), op)}
+				v.Op = len(recent)
+				reportViolation(sp, v, st, p.replayDir, !p.noMinimise)
 			}
 			st.Inc("violations_seen")
 			return false
@@ -235,8 +266,14 @@ func wfaultWorker(p *wfaultParams, st *Stats) {
 		items = append(items, item{doc: genLarge(g, c, target), stride: largeStride, large: true})
 	}
 	allOn := Config{GFM: true, DefList: true, Footnote: true, Typographer: true, CJK: "default", AutoID: true, Attribute: true}
+	if p.ctl == nil {
+		curProc = &ProcHistory{Tier: p.tier, Shard: p.shard, Of: p.of}
+	}
 	for i, it := range items {
 		if i%p.of != p.shard {
+			continue
+		}
+		if p.ctl != nil && (i < p.ctl.from || i > p.ctl.until) {
 			continue
 		}
 		r := NewRng(runSeed(p.verifSeed, "wfault", i))
